@@ -47,6 +47,22 @@ CLAIMED = {
              "equality (inputs of a different rank are outside the modelled domain).",
         technique="Lean 4 proof over operator-algebra model + translator tie + exact differential correspondence of expression trees",
         design="DESIGN.md §3 C03, §9"),
+    "C11": dict(
+        text="Lean 4 theorems (Mathlib, real inner-product spaces / R, C): each prox formula the translator extracts from "
+             "prox.py / thresh.py (Gen/Prox.lean: soft threshold kernel, L1Reg threshold lamda*alpha, clip, l2 mask formula, "
+             "linf = y - soft, L2Reg closed form with bias and inner prox, Conj's Moreau formula, UnitaryTransform, Stack) is the "
+             "unique minimiser of 1/2||x-y||^2 + alpha g(x) in the strong form F p + 1/2||p-y||^2 + 1/2||x-p||^2 <= F x + 1/2||x-y||^2 "
+             "(so minimal and unique), for real and complex data, incl. ball boundaries and bias; projections fix feasible points and "
+             "are idempotent; l1-ball projection under the KKT certificate (theta >= 0, sum(|y_i|-theta)_+ = eps), which the "
+             "correspondence verifies exactly for every case of Duchi's search; every nesting returns the input's shape. Tie: "
+             "Gen/Prox.lean regenerated each run + correspondence of the real Prox classes/thresh functions with the exact "
+             "Gaussian-rational model (exactly representable inputs, 1e-12; Fraction object arrays by equality).",
+        note="Trusted: Lean kernel; translator gen_c11 (symbolic execution of straight-line _prox bodies and numba kernels); numpy "
+             "elementwise evaluation / sort / cumsum / norm / split-vec plumbing tied by correspondence; Duchi's index search is "
+             "certified per case by the exact KKT test, not proved in general; psd_proj's spectral theorem is NOT proved (PsdProj is "
+             "decided by the search oracle's normal-cone certificate only); IEEE rounding not modelled.",
+        technique="Lean 4 proof over translator-generated prox formulas + exact-rational differential correspondence",
+        design="DESIGN.md §3 C11, §9"),
 }
 NOT_YET = "check not built yet in this round (framework exists; see DESIGN.md §8 build order)"
 
